@@ -366,7 +366,7 @@ fn op_strategy() -> impl Strategy<Value = Op> {
 }
 
 fn strat(many_pct: u32) -> impl Strategy<Value = HistCase> {
-    let cfg = GenCfg { max_contig: 1500, max_samples: 4, many_samples_pct: many_pct, single_file: None, vary_presentation: false };
+    let cfg = GenCfg { max_contig: 1500, max_samples: 4, many_samples_pct: many_pct, single_file: None, vary_presentation: false, swarm_pct: 0 };
     (gen::collection_strategy(cfg), prop::collection::vec(prop::collection::vec(op_strategy(), 4..13), 2..9), any::<bool>())
         .prop_map(|(collection, sequences, concurrent)| HistCase { collection, sequences, concurrent })
 }
